@@ -6,23 +6,19 @@ From SV Require Import Reconciler.Retries Reconciler.Model Reconciler.RetriesPro
 Import ListNotations.
 Open Scope N_scope.
 
-Definition hooks_safe (hs : list (N * N * (N * N))) : Prop := forall h, In h hs -> fst (snd h) <> 4.
-
-Lemma do_write_wstate : forall D e kind k c res q, kind <> 4 ->
+Lemma do_write_wstate : forall D e kind k c res q,
   wstate D (e_tab e) c res q -> wstate D (e_tab (do_write e kind k)) c res q.
 Proof.
-  intros D e kind k c res q Hs [A [B C]].
-  destruct (do_write_covers D e kind k c res q A B Hs C) as [A' [B' C']].
+  intros D e kind k c res q [A [B C]].
+  destruct (do_write_covers D e kind k c res q A B C) as [A' [B' C']].
   split; [exact A'|split; [exact B'|exact C']].
 Qed.
 
-Lemma run_hooks_wstate : forall D hs k n e c res q, hooks_safe hs ->
+Lemma run_hooks_wstate : forall D hs k n e c res q,
   wstate D (e_tab e) c res q -> wstate D (e_tab (run_hooks hs k n e)) c res q.
 Proof.
-  intros D hs k n. induction hs as [|[[k' n'] [wk k2]] r IH]; intros e c res q Hs W; cbn [run_hooks]; [exact W|].
-  apply IH; [intros h Hh; apply Hs; right; exact Hh|].
-  destruct ((k' =? k) && (n' =? n)); [|exact W].
-  apply do_write_wstate; [|exact W]. apply (Hs (k', n', (wk, k2))). left. reflexivity.
+  intros D hs k n. induction hs as [|[[k' n'] [wk k2]] r IH]; intros e c res q W; cbn [run_hooks]; [exact W|].
+  apply IH. destruct ((k' =? k) && (n' =? n)); [|exact W]. apply do_write_wstate. exact W.
 Qed.
 
 Lemma e_hooks_do_write : forall e kind k, e_hooks (do_write e kind k) = e_hooks e.
@@ -47,21 +43,15 @@ Proof.
   rewrite IH. destruct ((k' =? k) && (n' =? n)); [apply e_hooks_do_write|reflexivity].
 Qed.
 
-(* a scripted operation changes the table only through user writes: the cover is kept *)
-Lemma do_call_wstate : forall D e snap fresh op o rev c res q, hooks_safe (e_hooks e) ->
+(* a scripted operation changes the table only through user writes (of ANY kind): the cover is kept *)
+Lemma do_call_wstate : forall D e snap fresh op o rev c res q,
   wstate D (e_tab e) c res q ->
-  wstate D (e_tab (fst (do_call e snap fresh op o rev))) c res q /\
-  e_hooks (fst (do_call e snap fresh op o rev)) = e_hooks e.
+  wstate D (e_tab (fst (do_call e snap fresh op o rev))) c res q.
 Proof.
-  intros D e snap fresh op o rev c res q Hs W. unfold do_call. cbn [fst e_tab e_hooks].
+  intros D e snap fresh op o rev c res q W. unfold do_call. cbn [fst e_tab e_hooks].
   destruct fresh; cbn [e_hooks].
-  - split.
-    + apply run_hooks_wstate; [rewrite e_hooks_run_hooks; exact Hs|].
-      apply run_hooks_wstate; [exact Hs|exact W].
-    + rewrite !e_hooks_run_hooks. reflexivity.
-  - split.
-    + apply run_hooks_wstate; [exact Hs|exact W].
-    + rewrite e_hooks_run_hooks. reflexivity.
+  - apply run_hooks_wstate. apply run_hooks_wstate. exact W.
+  - apply run_hooks_wstate. exact W.
 Qed.
 
 (* ------------------------------------------------------------------ one processRetries step (update item) *)
@@ -77,6 +67,18 @@ Lemma item_covers_pop_other : forall q it pk d rv, uniq q -> r_top q = Some it -
 Proof.
   intros q it pk d rv Hu Ht Hn [i [A B]]. exists i. split; [|exact B].
   rewrite find_pop_other; [exact A|exact Hu|]. intros t Ht'. rewrite Ht in Ht'. injection Ht' as E. subst t. congruence.
+Qed.
+
+Lemma item_upd_pop_other : forall q it pk, uniq q -> r_top q = Some it -> pk <> ri_pk it ->
+  item_upd q pk -> item_upd (r_pop q) pk.
+Proof.
+  intros q it pk Hu Ht Hn [i [A B]]. exists i. split; [|exact B].
+  rewrite find_pop_other; [exact A|exact Hu|]. intros t Ht'. rewrite Ht in Ht'. injection Ht' as E. subst t. congruence.
+Qed.
+Lemma item_upd_clear_other : forall q pk pk', pk' <> pk -> item_upd q pk' -> item_upd (r_clear q pk) pk'.
+Proof.
+  intros q pk pk' Hn [i [A B]]. exists i. split; [|exact B].
+  rewrite clear_items, find_item_remove_other by exact Hn. exact A.
 Qed.
 
 Lemma item_covers_clear_other : forall q pk pk' d rv, pk' <> pk -> item_covers q pk' d rv -> item_covers (r_clear q pk) pk' d rv.
@@ -97,8 +99,8 @@ Proof.
   specialize (Hcov pk). unfold covered in *.
   assert (RC : forall o rv, res_covers res pk o rv -> res_covers (res ++ [r]) pk o rv).
   { intros o rv [r' [A B]]. exists r'. split; [apply in_or_app; left; exact A|exact B]. }
-  assert (RR : forall rv, res_covers_rev res pk rv -> res_covers_rev (res ++ [r]) pk rv).
-  { intros rv [r' [A B]]. exists r'. split; [apply in_or_app; left; exact A|exact B]. }
+  assert (RR : res_retry res pk -> res_retry (res ++ [r]) pk).
+  { intros [r' [A B]]. exists r'. split; [apply in_or_app; left; exact A|exact B]. }
   destruct (N.eq_dec pk (ri_pk it)) as [E|E].
   - subst pk.
     destruct (slot_of t (ri_pk it)) as [[o rev|o rev]|]; [| |exact I].
@@ -106,9 +108,9 @@ Proof.
       * destruct Hcov as [A|A]; [left; exact A|right; apply RC; exact A].
       * destruct Hcov as [A|A]; [left; exact A|right; apply RC; exact A].
       * exact I.
-      * destruct Hcov as [[i [A [B [C _]]]]|A]; [|right; apply RR; exact A].
+      * destruct Hcov as [[i [A [B [C Dn]]]]|A]; [|right; apply RR; exact A].
         rewrite Hf in A. injection A as A. subst i. right. exists r.
-        split; [apply in_or_app; right; left; reflexivity|]. split; [reflexivity|exact C].
+        split; [apply in_or_app; right; left; reflexivity|]. split; [reflexivity|exact Dn].
     + destruct Hcov as [A|[[i [A [B _]]]|A]]; [left; exact A| |right; right; exact A].
       rewrite Hf in A. injection A as A. subst i. congruence.
   - destruct (slot_of t pk) as [[o rev|o rev]|]; [| |exact I].
@@ -116,62 +118,69 @@ Proof.
       * destruct Hcov as [A|A]; [left; exact A|right; apply RC; exact A].
       * destruct Hcov as [A|A]; [left; exact A|right; apply RC; exact A].
       * exact I.
-      * destruct Hcov as [A|A]; [left; apply (item_covers_pop_other q it); assumption|right; apply RR; exact A].
+      * destruct Hcov as [A|A]; [left; apply (item_upd_pop_other q it); assumption|right; apply RR; exact A].
     + destruct Hcov as [A|[A|A]]; [left; exact A|right; left; apply (item_covers_pop_other q it); assumption|right; right; exact A].
 Qed.
 
 (* after a successful retry the item is cleared: the key stays covered by its pending result *)
-Lemma clear_after_result_covers : forall D t c res q pk0, 
-  (exists r, In r res /\ o_pk (r_obj r) = pk0) ->
+Lemma clear_after_result_covers : forall D t c res q pk0,
   (forall pk, covered D t c res q pk) ->
   (forall rv, ~ item_covers q pk0 true rv) ->
-  (forall o rev, slot_of t pk0 = Some (Live o rev) -> o_kind o = Error -> res_covers_rev res pk0 rev) ->
+  (forall o rev, slot_of t pk0 = Some (Live o rev) -> o_kind o = Error -> res_retry res pk0) ->
   forall pk, covered D t c res (r_clear q pk0) pk.
 Proof.
-  intros D t c res q pk0 _ Hcov Hnd Herr pk. specialize (Hcov pk). unfold covered in *.
+  intros D t c res q pk0 Hcov Hnd Herr pk. specialize (Hcov pk). unfold covered in *.
   destruct (N.eq_dec pk pk0) as [E|E].
   - subst pk. destruct (slot_of t pk0) as [[o rev|o rev]|] eqn:Es; [| |exact I].
     + destruct (o_kind o) eqn:Ek; try exact Hcov. right. apply (Herr o rev eq_refl Ek).
     + destruct Hcov as [A|[A|A]]; [left; exact A|exfalso; apply (Hnd rev); exact A|right; right; exact A].
   - destruct (slot_of t pk) as [[o rev|o rev]|]; [| |exact I].
     + destruct (o_kind o); try exact Hcov.
-      destruct Hcov as [A|A]; [left; apply item_covers_clear_other; assumption|right; exact A].
+      destruct Hcov as [A|A]; [left; apply item_upd_clear_other; assumption|right; exact A].
     + destruct Hcov as [A|[A|A]]; [left; exact A|right; left; apply item_covers_clear_other; assumption|right; right; exact A].
 Qed.
 
+Lemma popped_find : forall q it, uniq q -> r_top q = Some it ->
+  find_item (ri_pk it) (q_items (r_pop q)) = Some (set_inq false it).
+Proof.
+  intros q it Hu Ht. rewrite pop_items. unfold r_top in Ht. rewrite Ht.
+  change (ri_pk it) with (ri_pk (set_inq false it)). apply find_item_put_same.
+Qed.
 Lemma popped_not_queued : forall q it d rv, uniq q -> r_top q = Some it -> ~ item_covers (r_pop q) (ri_pk it) d rv.
 Proof.
-  intros q it d rv Hu Ht [i [A [_ [_ B]]]]. rewrite pop_items in A. unfold r_top in Ht. rewrite Ht in A.
-  change (ri_pk it) with (ri_pk (set_inq false it)) in A. rewrite find_item_put_same in A.
+  intros q it d rv Hu Ht [i [A [_ [_ B]]]]. rewrite (popped_find q it Hu Ht) in A.
+  injection A as A. subst i. cbn in B. discriminate.
+Qed.
+Lemma popped_not_upd : forall q it, uniq q -> r_top q = Some it -> ~ item_upd (r_pop q) (ri_pk it).
+Proof.
+  intros q it Hu Ht [i [A [_ [B _]]]]. rewrite (popped_find q it Hu Ht) in A.
   injection A as A. subst i. cbn in B. discriminate.
 Qed.
 
 (* one iteration of processRetries on a due UPDATE item: pop, run the operation (its hooks may write
-   anything safe), record the result, Clear on success — every key stays covered *)
+   anything), record the result, Clear on success — every key stays covered *)
 Theorem retry_update_step_covers : forall D c e snap q res it e' q' res',
-  uniq q -> r_top q = Some it -> ri_del it = false -> hooks_safe (e_hooks e) ->
+  uniq q -> r_top q = Some it -> ri_del it = false ->
   wstate D (e_tab e) c res q ->
   process_single e snap false (r_pop q) res (ri_obj it) (ri_rev it) (ri_orig it) false = (e', q', res') ->
-  wstate D (e_tab e') c res' q' /\ uniq q' /\ hooks_safe (e_hooks e').
+  wstate D (e_tab e') c res' q' /\ uniq q'.
 Proof.
-  intros D c e snap q res it e' q' res' Hu Ht Hd Hs [K [B C]] H.
+  intros D c e snap q res it e' q' res' Hu Ht Hd [K [B C]] H.
   unfold process_single in H.
   destruct (do_call e snap false 0 (ri_obj it) (ri_rev it)) as [e1 ok] eqn:Ec.
   injection H as H1 H2 H3. subst e' res'.
   set (r := mkRes (ri_obj it) (ri_rev it) (ri_orig it) (o_sid (ri_obj it)) ok) in *.
   assert (W0 : wstate D (e_tab e) c (res ++ [r]) (r_pop q)).
   { split; [exact K|split; [exact B|]]. apply pop_update_covers; assumption. }
-  destruct (do_call_wstate D e snap false 0 (ri_obj it) (ri_rev it) c (res ++ [r]) (r_pop q) Hs W0) as [W1 H1].
-  rewrite Ec in W1, H1. cbn [fst] in W1, H1.
-  assert (Hs1 : hooks_safe (e_hooks e1)) by (rewrite H1; exact Hs).
+  pose proof (do_call_wstate D e snap false 0 (ri_obj it) (ri_rev it) c (res ++ [r]) (r_pop q) W0) as W1.
+  rewrite Ec in W1. cbn [fst] in W1.
   destruct ok; subst q'.
-  - split; [|split; [apply uniq_clear; apply uniq_pop; exact Hu|exact Hs1]].
+  - split; [|apply uniq_clear; apply uniq_pop; exact Hu].
     destruct W1 as [K1 [B1 C1]]. split; [exact K1|split; [exact B1|]].
     apply clear_after_result_covers.
-    + exists r. split; [apply in_or_app; right; left; reflexivity|reflexivity].
     + exact C1.
     + intro rv. apply (popped_not_queued q it true rv Hu Ht).
     + intros o rev Hsl Hk. specialize (C1 (o_pk (ri_obj it))). unfold covered in C1. rewrite Hsl, Hk in C1.
-      destruct C1 as [A|A]; [exfalso; apply (popped_not_queued q it false rev Hu Ht); exact A|exact A].
-  - split; [exact W1|split; [apply uniq_pop; exact Hu|exact Hs1]].
+      destruct C1 as [A|A]; [exfalso; apply (popped_not_upd q it Hu Ht); exact A|exact A].
+  - split; [exact W1|apply uniq_pop; exact Hu].
 Qed.
